@@ -31,7 +31,7 @@ FORMAT_TYPES = ['NOT', 'AND', 'OR', 'NOR', 'NAND', 'XOR', 'NXOR', 'IFF', 'GEQ', 
 REQUIRED = {'mon:encode_circuit.roundtrip_ok': 200, 'mon:encode_circuit.codec_error': 20, 'domain:in': 150,
             'domain:in/shuffled_storage': 30, 'domain:in/const2': 10, 'domain:out': 50, 'bitio_programs': 100,
             'dict_roundtrips': 100, 'dict_unicode': 20, 'dict_odd_edge_codepoint': 20, 'dict_prefixes_rejected': 500, 'dict_extensions_rejected': 50,
-            'db_roundtrip:BytesIO': 5, 'db_roundtrip:bin': 3, 'db_roundtrip:xz': 3}
+            'db_roundtrip:BytesIO': 5, 'db_roundtrip:bin': 3, 'db_roundtrip:xz': 3, 'large_circuits': 2}
 
 CUR = {'ctx': None, 'case': None}
 
@@ -40,6 +40,8 @@ def shards(tier, seed):
     per = 500 if tier == 'quick' else 30000
     budget = 45 if tier == 'quick' else 540
     _out = [{'kind': 'random', 'count': per, 'budget_s': budget, 'max_g': 12 if tier == 'quick' else 40} for _ in range(16)]
+    _out.append({'kind': 'large', 'count': 3 if tier == 'quick' else 30, 'budget_s': budget,
+                 'depths': [300, 1200, 4000] if tier == 'quick' else [250, 260, 300, 1000, 1500, 5000, 20000, 70000]})
     if tier == 'thorough':
         _out.append({'kind': 'suite', 'select': ['tests/cirbo/circuits_db', 'tests/cirbo/synthesis'], 'budget_s': 900})
     return _out
@@ -201,6 +203,8 @@ def check_circuit(case, ctx):
         ctx.count('edited_circuits')
     dom = in_domain(net)
     ctx.count('domain:in' if dom else 'domain:out')
+    if case.get('large'):
+        ctx.count('large_circuits')
     if dom:
         order = list(c.gates)
         pos = {l: i for i, l in enumerate(order)}
@@ -415,6 +419,11 @@ def _rand_key(rng):
 
 
 def gen_case(rng, spec):
+    if spec.get('kind') == 'large':
+        # thousands of gates: identifiers need more than one byte, long dependency chains
+        binary = [t for t in FORMAT_TYPES if t not in ('NOT', 'IFF', 'INPUT', 'ALWAYS_TRUE', 'ALWAYS_FALSE', 'LNOT', 'RNOT', 'LIFF', 'RIFF')]
+        return {'kind': 'circuit', 'net': netgen.deep_description(rng, spec['depths'], types=binary + ['NOT', 'IFF']),
+                'rseed': rng.getrandbits(32), 'shuffle': rng.random() < 0.5, 'edited': False, 'large': True}
     r = rng.random()
     if r < 0.55:
         return gen_circuit_case(rng, spec)
